@@ -171,6 +171,10 @@ def _load_source_file(path: Path, file_format: str) -> Dict[str, List[Any]]:
             }
 
             for row in reader:
+                if None in row:
+                    raise ConfigurationError(
+                        "CSV source row has more fields than the header"
+                    )
                 for original_field, value in row.items():
                     field = fieldname_map[original_field]
                     columns[field].append(
@@ -184,7 +188,12 @@ def _load_source_file(path: Path, file_format: str) -> Dict[str, List[Any]]:
             for line in handle:
                 if not line.strip():
                     continue
-                row = json.loads(line)
+                try:
+                    row = json.loads(line)
+                except json.JSONDecodeError as exc:
+                    raise ConfigurationError(
+                        f"Failed to parse NDJSON source: {exc}"
+                    ) from exc
                 if not isinstance(row, Mapping):
                     raise ConfigurationError("NDJSON source lines must be JSON objects")
                 for key, value in row.items():
@@ -193,7 +202,10 @@ def _load_source_file(path: Path, file_format: str) -> Dict[str, List[Any]]:
 
     elif file_format in ("json", "yaml"):
         if file_format == "json":
-            payload = json.loads(path.read_text(encoding="utf-8"))
+            try:
+                payload = json.loads(path.read_text(encoding="utf-8"))
+            except json.JSONDecodeError as exc:
+                raise ConfigurationError(f"Failed to parse JSON source: {exc}") from exc
         else:
             try:
                 payload = yaml.safe_load(path.read_text(encoding="utf-8"))
